@@ -347,8 +347,13 @@ func ruleInitBeforeUse(w *World, r *Run, rule string) {
 
 // ---------------------------------------------------------------- C14
 
+const (
+	fnNewDistributor = pRest + ".NewDistributor"
+	fnDistOnceM      = "(*" + pRest + ".Distributor).DistributeOnce"
+)
+
 func mainOpaque() []string {
-	return []string{fnAsLogMap, fnNewLog, fnWitnessNew, fnFeedFunc, fnRunDist, fnNewServer, "(*" + pIHTTP + ".Server).RegisterHandlers"}
+	return []string{fnAsLogMap, fnNewLog, fnWitnessNew, fnFeedFunc, fnNewServer, "(*" + pIHTTP + ".Server).RegisterHandlers", fnNewDistributor, fnDistOnceM, fnFeedBastion}
 }
 
 type mainPath struct {
@@ -359,10 +364,40 @@ type mainPath struct {
 	waited bool
 }
 
+var mainCache = map[*World]struct {
+	sums []Summary
+	eng  *Engine
+}{}
+
+// mainPaths explores Main with every helper of its package inlined and the function handed to errgroup.Go run once in
+// place (events inside it carry InHOF), so that what each goroutine does is seen with the values it was given.
 func mainPaths(w *World, r *Run, rule string) ([]mainPath, *Engine, bool) {
-	sums, e, ok := exploreOpaque(w, r, rule, fnMain, 4, 1, mainOpaque()...)
+	c, ok := mainCache[w]
 	if !ok {
-		return nil, nil, false
+		fn := w.fn(fnMain)
+		if fn == nil {
+			r.Undecided(rule, fnMain, "", "anchor function not found in the type-checked program")
+			return nil, nil, false
+		}
+		e := w.engine(6, 1)
+		for _, o := range mainOpaque() {
+			e.opaque[o] = true
+		}
+		e.hof[cGroupGo] = 0
+		c.sums, c.eng = e.Explore(fn), e
+		mainCache[w] = c
+	}
+	sums, e := c.sums, c.eng
+	r.Analysed(fnMain, len(sums))
+	for _, s := range sums {
+		if s.Trunc != "" {
+			r.Undecided(rule, fnMain, "", "path enumeration truncated: "+s.Trunc)
+			return nil, e, false
+		}
+	}
+	if len(sums) == 0 {
+		r.Undecided(rule, fnMain, "", "no feasible path")
+		return nil, e, false
 	}
 	var out []mainPath
 	for _, s := range sums {
@@ -382,13 +417,48 @@ func mainPaths(w *World, r *Run, rule string) ([]mainPath, *Engine, bool) {
 	return out, e, true
 }
 
+// structArg resolves a struct-typed argument: the value itself, or the contents of the allocation it points to as of the call.
+func structArg(ev Event, a *Term) *Term {
+	if a == nil {
+		return nil
+	}
+	if a.Kind == "structval" {
+		return a
+	}
+	if a.Kind == "alloc" {
+		if v, ok := ev.Binds[a.key]; ok && v.Kind == "structval" {
+			return v
+		}
+	}
+	return a
+}
+
+func structField(t *Term, name string) *Term {
+	if t == nil || t.Kind != "structval" {
+		return nil
+	}
+	for _, f := range t.Args {
+		if f.Name == name && len(f.Args) == 1 {
+			return f.Args[0]
+		}
+	}
+	return nil
+}
+
 // witnessAdapterVals collects every witnessAdapter struct value visible on the path (arguments and captured cells).
 func adapterVals(s Summary) []*Term {
 	seen := map[*Term]bool{}
 	var out []*Term
+	isAdapter := func(x *Term) bool {
+		if x.Kind != "structval" || len(x.Args) != 1 || len(x.Args[0].Args) != 1 {
+			return false
+		}
+		v := x.Args[0].Args[0]
+		return v != nil && v.Typ != nil && typeStr(v.Typ) == "*witness.Witness"
+	}
 	visit := func(t *Term) {
 		anySub(t, func(x *Term) bool {
-			if x.Kind == "structval" && strings.HasSuffix(x.Name, "witnessAdapter") && !seen[x] {
+			if isAdapter(x) && !seen[x] {
 				seen[x] = true
 				out = append(out, x)
 			}
@@ -483,19 +553,17 @@ func ruleOneWitness(w *World, r *Run, rule string) {
 				r.Check(have[lg], "C17.b", fnMain+" | "+where+" gets every configured log", pos, "a configured log is in the witness's map but missing from the list given to the "+where+" (witness map and feeder/endpoint list describe different sets of logs)")
 			}
 		}
-		for _, rd := range calls(s, fnRunDist) {
-			if len(rd.Args) >= 5 {
-				checkList(rd.Args[4], "distributor", w.pos(rd.Pos))
+		for _, nd := range calls(s, fnNewDistributor) {
+			if len(nd.Args) >= 3 {
+				checkList(nd.Args[2], "distributor", w.pos(nd.Pos))
 			}
 		}
-		for _, g := range mp.gos {
-			for _, bv := range g.Binds {
-				if bv.Kind == "structval" && strings.HasSuffix(bv.Name, "bastion.Config") {
-					for _, f := range bv.Args {
-						if f.Name == "Logs" {
-							checkList(f.Args[0], "bastion endpoint", w.pos(g.Pos))
-						}
-					}
+		for _, fb := range calls(s, fnFeedBastion) {
+			if len(fb.Args) >= 2 {
+				if lg := structField(structArg(fb, fb.Args[1]), "Logs"); lg != nil {
+					checkList(lg, "bastion endpoint", w.pos(fb.Pos))
+				} else {
+					r.Fail("C17.b", fnMain+" | bastion endpoint gets every configured log", w.pos(fb.Pos), "the bastion configuration carries no recognisable log list: "+short(fmt.Sprint(fb.Args[1])))
 				}
 			}
 		}
@@ -716,7 +784,8 @@ func ruleEveryFeeder(w *World, r *Run, rule string) {
 			}
 		}
 	}
-	// Main: FeedFunc only for entries whose feeder is not None; one goroutine per map entry when polling is enabled
+	// Main: FeedFunc only for entries whose feeder is not None; when polling is enabled every (log, feeder) pair built from
+	// one configuration entry is run in its own goroutine as feeder(group context, that log, the adapter, client, interval)
 	mps, e, ok := mainPaths(w, r, rule)
 	if !ok {
 		return
@@ -724,93 +793,207 @@ func ruleEveryFeeder(w *World, r *Run, rule string) {
 	fnM := w.fn(fnMain)
 	opc := paramN(fnM, 1)
 	interval := mk("field", "FeedInterval", 0, nil, opc)
-	nLaunch := 0
-	filledMaps := map[*Term]bool{} // tables filled with (config.NewLog result -> FeedFunc result) on some path
-	for _, mp := range mps {
-		for _, mu := range eventsOfKind(mp.s, "mapupdate") {
-			k, v := mu.Args[0], mu.Args[1]
-			if k.Kind == "call" && k.Name == fnNewLog && v.Kind == "call" && v.Name == fnFeedFunc {
-				filledMaps[mu.Recv] = true
+	isFeederSig := func(t types.Type) bool {
+		if t == nil {
+			return false
+		}
+		sg, ok := t.Underlying().(*types.Signature)
+		return ok && sg.Params().Len() == 5 && typeStr(sg.Params().At(1).Type()) == "config.Log" && typeStr(sg.Params().At(2).Type()) == "feeder.Witness"
+	}
+	// does any path put a (log, feeder) pair into this collection?
+	entryOf := func(t *Term) *Term {
+		if t != nil && t.Kind == "field" && len(t.Args) == 1 {
+			return t.Args[0]
+		}
+		return nil
+	}
+	pairFromOneEntry := func(lg, fd *Term) bool {
+		if lg == nil || fd == nil || lg.Kind != "call" || lg.Name != fnNewLog || lg.Idx != 1 || fd.Kind != "call" || fd.Name != fnFeedFunc || len(fd.Args) < 2 {
+			return false
+		}
+		ent := entryOf(fd.Args[1])
+		if ent == nil || fd.Args[1].Name != "Feeder" {
+			return false
+		}
+		for _, a := range lg.Args[2:] {
+			if entryOf(a) != ent {
+				return false
 			}
 		}
+		return true
 	}
+	pairOK := func(s Summary, F, c *Term) (bool, string) {
+		var it *Term
+		anySub(F, func(x *Term) bool {
+			if x.Kind == "rangeiter" && it == nil {
+				it = x
+			}
+			return false
+		})
+		var coll *Term
+		if it == nil {
+			// index-based loop over a slice of records: element = *(&list[i])
+			if F.Kind == "field" && len(F.Args) == 1 {
+				el := F.Args[0]
+				if el.Kind == "deref" && len(el.Args) == 1 && el.Args[0].Kind == "indexaddr" {
+					coll, it = el.Args[0].Args[0], el
+				} else if el.Kind == "index" && len(el.Args) == 2 {
+					coll, it = el.Args[0], el
+				}
+			}
+			if coll == nil {
+				return false, "the feeder is not taken from an iteration over the configured (log, feeder) pairs"
+			}
+		} else {
+			coll = it.Args[0]
+		}
+		switch {
+		case isMapTerm(coll):
+			if !(F.Kind == "rangeelem" && F.Args[0] == it && c.Kind == "rangekey" && c.Args[0] == it) {
+				return false, "feeder and log are not the key and value of one entry of the feeder table"
+			}
+			n := 0
+			for _, mu := range eventsOfKind(s, "mapupdate") {
+				if mu.Recv != coll {
+					continue
+				}
+				n++
+				if !pairFromOneEntry(mu.Args[0], mu.Args[1]) {
+					return false, "the feeder table receives an entry that is not (config.NewLog(E), E.Feeder.FeedFunc()) for one configuration entry E: " + short(fmt.Sprint(mu.Args))
+				}
+			}
+			return true, fmt.Sprint(n)
+		default:
+			// a slice of records: both projections of the same element
+			if !(F.Kind == "field" && c.Kind == "field" && len(F.Args) == 1 && F.Args[0] == c.Args[0] && mentions(F.Args[0], it)) {
+				return false, "feeder and log are not two fields of one element of the feeder list (the log is " + short(c.String()) + ", the feeder " + short(F.String()) + ")"
+			}
+			n := 0
+			t := coll
+			for t.Kind == "append" {
+				for _, el := range t.Args[1:] {
+					if el.Kind != "varargs" {
+						return false, "the feeder list is built from something other than single records"
+					}
+					for _, x := range el.Args {
+						n++
+						if !pairFromOneEntry(structField(x, c.Name), structField(x, F.Name)) {
+							return false, "the feeder list receives a record that is not (config.NewLog(E), E.Feeder.FeedFunc()) for one configuration entry E: " + short(x.String())
+						}
+					}
+				}
+				t = t.Args[0]
+			}
+			if !(t.Kind == "alloc" || t.Kind == "nil" || t.Kind == "zero" || (t.Kind == "varargs" && len(t.Args) == 0)) {
+				return false, "the feeder list does not start empty: " + short(t.String())
+			}
+			return true, fmt.Sprint(n)
+		}
+	}
+	nLaunch, nFilled := 0, 0
 	for _, mp := range mps {
 		s := mp.s
 		for _, ff := range calls(s, fnFeedFunc) {
 			k, v, _ := eqConstFact(s, ff.Recv, noneVal)
 			r.Check(k && !v, rule, fnMain+" | FeedFunc only for entries that have a feeder", w.pos(ff.Pos), "FeedFunc is called on a path that did not exclude the 'none' feeder (it panics on it)")
 		}
-		if !mp.waited {
+		if !mp.waited || mp.newW == nil {
 			continue
 		}
-		iters := 0
-		launched := 0
-		var feedersMap *Term
+		W := res(*mp.newW, 0)
+		wc := calls(s, "golang.org/x/sync/errgroup.WithContext")
+		var feedCalls []Event
 		for _, ev := range s.Events {
-			if ev.Kind == "iter" && ev.Recv.Kind == "rangeiter" && isMapTerm(ev.Recv.Args[0]) {
-				iters++
-				feedersMap = ev.Recv.Args[0]
+			if ev.Kind == "call" && ev.Callee == "dyn" && ev.Recv != nil && isFeederSig(ev.Recv.Typ) {
+				feedCalls = append(feedCalls, ev)
 			}
 		}
-		for _, g := range mp.gos {
-			cl := g.Args[0]
-			if cl.Kind != "closure" {
-				continue
+		colls := map[*Term]bool{}
+		for _, fc := range feedCalls {
+			nLaunch++
+			key := fnMain + " | each feeder runs in its own goroutine as feeder(group context, its log, the shared adapter, client, poll interval)"
+			good, why := true, ""
+			switch {
+			case fc.InHOF != cGroupGo:
+				good, why = false, "a feeder is run synchronously by Main instead of in a goroutine of the error group"
+			case len(fc.Args) != 5 || len(wc) != 1 || fc.Args[0] != res(wc[0], 1):
+				good, why = false, "the feeder does not run under the error group's context (it would outlive the failure of the other components)"
+			case fc.Args[4] != interval:
+				good, why = false, "the feeder is not given the configured poll interval"
 			}
-			isFeeder := false
-			for _, b := range g.Binds {
-				if b.Kind == "rangeelem" || b.Kind == "rangekey" {
-					isFeeder = true
+			if good {
+				ad := structArg(fc, fc.Args[2])
+				if !(ad != nil && ad.Kind == "structval" && len(ad.Args) == 1 && len(ad.Args[0].Args) == 1 && ad.Args[0].Args[0] == W) {
+					good, why = false, "the feeder is not handed an adapter around the witness that Main created: "+short(fmt.Sprint(ad))
 				}
 			}
-			if isFeeder {
-				launched++
+			if good {
+				var info string
+				good, info = pairOK(s, fc.Recv, fc.Args[1])
+				if !good {
+					why = info
+				} else if info != "0" {
+					nFilled++
+				}
 			}
+			if good {
+				// the goroutine's result is the feeder's error
+				good, why = false, "the goroutine does not return the feeder's error (a dead feeder would go unnoticed)"
+				for _, hr := range eventsOfKind(s, "hofret") {
+					if hr.Callee == cGroupGo && len(hr.Args) == 1 && hr.Args[0] == fc.Res {
+						good = true
+					}
+				}
+			}
+			r.Check(good, rule, key, w.pos(fc.Pos), why+"; path: "+pathString(e, s))
+			anySub(fc.Recv, func(x *Term) bool {
+				if x.Kind == "rangeiter" {
+					colls[x] = true
+				}
+				return false
+			})
 		}
-		polling := implies(s.Facts, "<", mk("const", "0", 0, nil), interval, true)
-		_ = polling
-		if iters > 0 {
-			nLaunch++
-			r.Check(launched == iters, rule, fnMain+" | one feeder goroutine per configured feeder", w.pos(s.RetPos), fmt.Sprintf("%d feeders iterated but %d goroutines launched; path: %s", iters, launched, pathString(e, s)))
-			// the map iterated is the one filled from the configuration
-			r.Check(filledMaps[feedersMap], rule, fnMain+" | feeders launched from the configured feeder table", w.pos(s.RetPos), "the feeder loop ranges over a table that was not filled from the configuration")
+		// one goroutine per iteration of the feeder collection
+		for it := range colls {
+			iters := 0
+			for _, ev := range s.Events {
+				if ev.Kind == "iter" && ev.Recv == it {
+					iters++
+				}
+			}
+			seqs := map[int]bool{}
+			for _, fc := range feedCalls {
+				if mentions(fc.Recv, it) && fc.InHOF == cGroupGo {
+					seqs[fc.HOFSeq] = true
+				}
+			}
+			r.Check(len(seqs) == iters, rule, fnMain+" | one feeder goroutine per configured feeder", w.pos(s.RetPos), fmt.Sprintf("%d feeders iterated but %d goroutines launched; path: %s", iters, len(seqs), pathString(e, s)))
+		}
+		// polling enabled and a pair was configured, yet nothing launched?
+		if len(feedCalls) == 0 {
+			for _, ev := range s.Events {
+				if ev.Kind == "iter" && ev.Recv.Kind == "rangeiter" {
+					coll := ev.Recv.Args[0]
+					filled := false
+					for _, mu := range eventsOfKind(s, "mapupdate") {
+						if mu.Recv == coll && mu.Args[1].Kind == "call" && mu.Args[1].Name == fnFeedFunc {
+							filled = true
+						}
+					}
+					if anySub(coll, func(x *Term) bool { return x.Kind == "call" && x.Name == fnFeedFunc }) {
+						filled = true
+					}
+					if filled {
+						r.Fail(rule, fnMain+" | one feeder goroutine per configured feeder", w.pos(ev.Pos), "the configured feeders are iterated but no feeder is run; path: "+pathString(e, s))
+					}
+				}
+			}
 		}
 	}
 	if nLaunch == 0 {
-		r.Undecided(rule, fnMain+" | feeder launch loop", "", "no path launches a feeder")
-	}
-	// the goroutine body: f(ctx, c, bw, httpClient, operatorConfig.FeedInterval) and its error is the goroutine's result
-	for _, cl := range fnM.AnonFuncs {
-		hasF := false
-		for _, fv := range cl.FreeVars {
-			if typeStr(fv.Type()) == "*omniwitness.logFeeder" {
-				hasF = true
-			}
-		}
-		if !hasF {
-			continue
-		}
-		sums, _, ok := exploreFn(w, r, rule, cl, 4, 1)
-		if !ok {
-			continue
-		}
-		for _, s := range sums {
-			var dc []Event
-			for _, ev := range s.Events {
-				if ev.Kind == "call" && ev.Callee == "dyn" {
-					dc = append(dc, ev)
-				}
-			}
-			good := len(dc) == 1 && len(dc[0].Args) == 5 && len(s.Rets) == 1 && s.Rets[0] == dc[0].Res
-			if good {
-				a := dc[0].Args
-				isFV := func(t *Term, typ string) bool {
-					return t.Kind == "deref" && t.Args[0].Kind == "freevar" && typeStr(t.Args[0].Typ) == typ
-				}
-				good = isFV(a[1], "*config.Log") && isFV(a[2], "*omniwitness.witnessAdapter") && a[4].Kind == "field" && a[4].Name == "FeedInterval"
-			}
-			r.Check(good, rule, cl.String()+" | runs f(ctx, its log, the shared witness adapter, http client, poll interval)", w.pos(s.RetPos), "feeder goroutine body does not call its feeder with the captured log and adapter")
-		}
+		r.Fail(rule, fnMain+" | feeder launch loop", "", "no path of Main runs a feeder")
+	} else if nFilled == 0 {
+		r.Undecided(rule, fnMain+" | feeder launch loop", "", "no path both fills the feeder collection from the configuration and launches from it")
 	}
 }
 
